@@ -5,6 +5,7 @@ import (
 	"fmt"
 	"math/rand"
 	"sort"
+	"strings"
 	"time"
 
 	clock "github.com/jonboulle/clockwork"
@@ -305,9 +306,15 @@ func (n *netRun) advance(d int64) {
 
 func (n *netRun) deliver(j int, m wireMsg) Obs {
 	ev := Event{Kind: "part", Raw: true, Round: m.Round, RawPrev: m.Prev, RawSig: m.Sig, Note: m.From}
+	st := n.streamTerm(j)
 	o := n.nodes[j].r.Do(ev)
 	n.collect(j, o)
-	n.record("deliver", []string{fmt.Sprintf("GDeliver %d %s", j, n.wireTerm(m))}, map[int]Obs{j: o}, map[int]Event{j: ev})
+	model := []string{fmt.Sprintf("GDeliver %d %s", j, n.wireTerm(m))}
+	if len(o.Syncs) > 0 && strings.HasPrefix(st, "(Some ") {
+		// the aggregator asked the sync manager for the rounds up to the recovered one; the peers answered
+		model = append(model, fmt.Sprintf("GNode %d (ESynced %d %s)", j, m.Round, strings.TrimSuffix(strings.TrimPrefix(st, "(Some "), ")")))
+	}
+	n.record("deliver", model, map[int]Obs{j: o}, map[int]Event{j: ev})
 	return o
 }
 
